@@ -48,7 +48,6 @@ func setError(l Labels, what string) {
 		return
 	}
 	l[ErrorLabel] = what
-	l[ErrorDetails] = "<set>" // the text is the implementation's own; only its presence is part of the model
 }
 
 var reCache = map[string]*regexp.Regexp{}
